@@ -37,7 +37,7 @@ theorem C19_unattached_controller (U : Universe) (s : St) (k : Obj) (v : Via)
 
 /-- A Controller attached to an entity knows that entity: after the `on_add` of a Controller
 subclass instance — delivered directly (dispatching enabled) — the recorded entity is the owner. -/
-theorem C19_on_add_records_owner (U : Universe) (hn : NoRaise U) (s : St) (c : Obj) (e : Ent)
+theorem C19_on_add_records_owner (U : Universe) [U.Passive] (hn : NoRaise U) (s : St) (c : Obj) (e : Ent)
     (m : Mapping) (meth : String) (hm : U.mapOf c = some m) (hon : Dict.get? m onAdd = some meth)
     (hc : (U.cls (tyOf U c)).isCtrl = true) (hen : s.enabled = true) :
     Dict.get? (attachEvents U s c (some e)).1.ctrl c = some e := by
@@ -50,7 +50,7 @@ theorem C19_on_add_records_owner (U : Universe) (hn : NoRaise U) (s : St) (c : O
   exact (Dict.get?_set _ _ _ _).trans (by simp)
 
 /-- … and when the `on_add` was postponed, the relay that delivers it records the owner as well. -/
-theorem C19_relayed_on_add_records_owner (U : Universe) (hn : NoRaise U) (s : St) (c : Obj) (e : Ent)
+theorem C19_relayed_on_add_records_owner (U : Universe) [U.Passive] (hn : NoRaise U) (s : St) (c : Obj) (e : Ent)
     (meth : String) (hm : (U.mapOf c).bind (fun m => Dict.get? m onAdd) = some meth)
     (hc : (U.cls (tyOf U c)).isCtrl = true) (hk : s.known.contains onSingle = true)
     (hs : s.selfReg = true) :
@@ -65,7 +65,7 @@ theorem C19_relayed_on_add_records_owner (U : Universe) (hn : NoRaise U) (s : St
 /-- OnUpdateProcessor relays each frame's `dt` exactly once to every `on_update` listener of its
 world: the listener set is duplicate free after every history, and one dispatch logs one entry per
 registered listener mapping the event, carrying exactly `dt`. -/
-theorem C19_on_update (U : Universe) (hn : NoRaise U) (hints : List (List Ent)) (ops : List Op)
+theorem C19_on_update (U : Universe) [U.Passive] (hn : NoRaise U) (hints : List (List Ent)) (ops : List Op)
     (dt : String) :
     let s := run U { sweepHints := hints } ops
     s.registered.Nodup ∧
